@@ -215,6 +215,11 @@ def main(argv=None):
                             v['desc'][:200]))
     rc = 0
     replays = []
+    if new:
+        per = {}
+        for v in new:
+            per[v['mechanism']] = acc._viol_per_mech.get(v['mechanism'], 1)
+        print('violations by mechanism: %s' % json.dumps(per, sort_keys=True))
     for n, v in enumerate(new[:10]):
         path = write_replay(pid, n, v, args.tier, seed)
         replays.append(path)
